@@ -3,7 +3,8 @@
 correspondence: the Lean model (Model/Gtf.lean, through the driver) against the real `validate_exons`,
 `GFFPrinter.dump` (call histories on one printer, GTF parsed back), `TranscriptModel.from_reference_transcript`,
 `create_extended_storage` (real gffutils database), `get_exons`, `correct_novel_transcript_ends`,
-`generate_monoexon_from_clustered`, `merge_files` (order of concatenation).
+`generate_monoexon_from_clustered`, `merge_files` (order of concatenation); props/C03ref.py: exon-less transcript records,
+the second loop of `TranscriptToGeneJoiner.__init__`, the task list (= FASTA keys) of the extended annotation.
 oracle: every clause of the property statement (a) on the real printer for call histories inside the
 assumption interface, (b) on the two GTF files written by the real pipeline for synthetic multi-chromosome data
 (with / without annotation, several construction strategies and data types) against the input GTF and the .fai.
@@ -21,9 +22,10 @@ from gen import c03gen as G
 ID = "C03"
 PROPS = ["IsoVerif/Props/C03.lean", "IsoVerif/Props/C03Hist.lean", "IsoVerif/Props/C03Build.lean",
          "IsoVerif/Props/C03Merge.lean", "IsoVerif/Props/C03Whole.lean", "IsoVerif/Props/C03Paths.lean",
-         "IsoVerif/Props/C03Text.lean", "IsoVerif/Props/C03TextOrder.lean"]
+         "IsoVerif/Props/C03Text.lean", "IsoVerif/Props/C03TextOrder.lean", "IsoVerif/Props/C03Ref.lean"]
 TARGETS = ["IsoVerif.Props.C03", "IsoVerif.Props.C03Hist", "IsoVerif.Props.C03Build", "IsoVerif.Props.C03Merge",
-           "IsoVerif.Props.C03Whole", "IsoVerif.Props.C03Paths", "IsoVerif.Props.C03Text", "IsoVerif.Props.C03TextOrder"]
+           "IsoVerif.Props.C03Whole", "IsoVerif.Props.C03Paths", "IsoVerif.Props.C03Text", "IsoVerif.Props.C03TextOrder",
+           "IsoVerif.Props.C03Ref"]
 GEN_DEPS = ["Prims", "Enums", "Constants", "Strategies", "ModelConstruction", "GtfFormat"]
 LEVEL = "proof"
 RULE = ("dump call histories: exhaustive universe (every single call of <=2 models from a 12-model pool x 2 contexts, "
@@ -46,8 +48,10 @@ ASSUMPTIONS = ["assumption interface of the unmodelled intron graph (monitored o
                "disjoint exons; exons lie within the chromosome",
                "transcript ids handed to one printer are pairwise distinct (id distributor / detected_known_isoforms; C17)",
                "all models attributed to one gene carry the gene's strand (select_reference_gene / TranscriptToGeneJoiner)",
-               "the input annotation is itself well-formed (gene records contain their transcripts, exons sorted and disjoint) "
-               "and its chromosomes are in the reference FASTA"]
+               "the input annotation is itself well-formed (gene records contain their transcripts, exons sorted and disjoint)",
+               "reading rule docs/C03.md 10.3: 'every reference transcript' = transcript records with >= 1 exon record, passing the "
+               "gate, on a sequence of the reference FASTA, of a gene whose gene_id is used on one sequence - provided the log names "
+               "what is left out (props/C03ref.py checks exactly that; a silent omission or an abort is a failure)"]
 
 STRANDS = "+-."
 logging.getLogger("IsoQuant").setLevel(logging.CRITICAL)
@@ -513,6 +517,9 @@ def correspondence(ctx):
         # ---- text level: raw lines, attribute column, GeneInfo-side attribute assembly (props/C03text.py)
         from props import C03text
         C03text.correspondence(ctx)
+        # ---- reference side of a run: exon-less transcript records, task list = FASTA keys (props/C03ref.py)
+        from props import C03ref
+        C03ref.correspondence(ctx)
         # ---- constructors
         cases = []
         for _ in range(2500 if quick else 25000):
@@ -1063,6 +1070,8 @@ def oracle(ctx, disagreements, broken):
     quick = ctx.tier == "quick"
     from props import C03text
     C03text.oracle(ctx, disagreements, broken)
+    from props import C03ref
+    C03ref.oracle(ctx, disagreements, broken)
     scratch = vlib.scratch_dir("isoverif_c03o_")
     n_hist = 0
     try:
@@ -1133,7 +1142,8 @@ def oracle(ctx, disagreements, broken):
             nj += 1
             r = oracle_joiner(c)
             if r:
-                _fail(ctx, "joiner_mixes_strands", {"level": "joiner", "case": c}, r)
+                _fail(ctx, "exonless_transcript_aborts_model_construction" if "KeyError" in r else "joiner_mixes_strands",
+                      {"level": "joiner", "case": c}, r)
         ctx.extra["joiner_cases"] = nj
         for _ in range(60 if quick else 600):
             names = G.chr_names(rng)
@@ -1268,6 +1278,10 @@ class FakeJoinGeneInfo:
             for tid, introns in g["isoforms"]:
                 self.gene_id_map[tid] = g["gid"]
                 self.all_isoforms_introns[tid] = [tuple(i) for i in introns]
+            # transcript records without exon records: GeneInfo lists them in gene_id_map (set_gene_ids) but
+            # set_introns_and_exons skips them, so all_isoforms_introns has no entry
+            for tid in g.get("exonless", []):
+                self.gene_id_map[tid] = g["gid"]
 
     def get_gene_regions(self):
         return self._regions
@@ -1285,7 +1299,8 @@ def joiner_case(rng):
         ex = G.sd_exons(rng, n=rng.randint(2, 4), maxc=50)
         ex = [(x + a, y + a) for x, y in ex]
         ref.append({"gid": "RG%d" % k, "strand": rng.choice("+-"), "region": (ex[0][0], ex[-1][1]),
-                    "isoforms": [("RT%d" % k, [(ex[i][1] + 1, ex[i + 1][0] - 1) for i in range(len(ex) - 1)])], "exons": ex})
+                    "isoforms": [("RT%d" % k, [(ex[i][1] + 1, ex[i + 1][0] - 1) for i in range(len(ex) - 1)])], "exons": ex,
+                    "exonless": ["RX%d" % k] if rng.random() < 0.2 else []})
     models = []
     for k in range(rng.randint(2, 7)):
         if ref and rng.random() < 0.3:
@@ -1316,6 +1331,8 @@ def oracle_joiner(c):
         out = GB.TranscriptToGeneJoiner(storage, gi).join_transcripts()
     except AssertionError:
         return None     # the joiner refuses the input (its own strand assert): nothing is printed
+    except KeyError as ex:
+        return "TranscriptToGeneJoiner raises KeyError %s (reference transcript without exon records)" % ex
     strands = {}
     for m in out:
         strands.setdefault(m.gene_id, set()).add(m.strand)
@@ -1347,6 +1364,9 @@ def replay(ctx, failure):
     if lvl == "text":
         from props import C03text
         return C03text.replay(ctx, failure)
+    if lvl in ("refjoin", "refpipeline"):
+        from props import C03ref
+        return C03ref.replay(ctx, failure)
     if lvl == "history":
         scratch = vlib.scratch_dir("isoverif_c03r_")
         try:
